@@ -129,7 +129,57 @@ def oracle(ctx, table, text, stmt):
     ctx.count('oracle')
 
 
+CORPUS = [
+    'SELECT * FROM (SELECT i AS date, s AS meta, j AS account FROM #t)',
+    'SELECT * FROM (SELECT s AS meta, i, s AS entry FROM #t)',
+    'SELECT I, S, Dt FROM #t',
+    'SELECT i, j FROM (SELECT I, J FROM #t)',
+    'SELECT s, i FROM #t GROUP BY s, i, j ORDER BY 2',
+]
+
+
+def corpus_layer(ctx):
+    rng = ctx.rng
+    table = std_table(rng, nrows=4, small=True)
+    for text in CORPUS:
+        SqlCase([table], text, name='corpus').check(ctx)
+        if text.startswith('SELECT I,'):
+            oracle(ctx, table, text, parser.parse(text))
+        ctx.count('corpus')
+
+
+def ledger_wildcard_layer(ctx):
+    """`SELECT *` over every ledger table describes the columns the pinned tree declares for `*`, in that order, and its
+    rows are as wide; the same through a subquery"""
+    import json
+    import os
+    import ledgers
+    golden = json.load(open(os.path.join(os.path.dirname(os.path.dirname(os.path.dirname(os.path.abspath(__file__)))), 'lean', 'golden', 'facts.json')))
+    text, entries, errors, options = ledgers.gen_ledger(ctx.rng, ntxn=6)
+    conn = ledgers.connect(entries, errors, options)
+    for tname, t in sorted(golden['tables'].items()):
+        if not tname or tname not in conn.tables:
+            continue
+        for q in ('SELECT * FROM #%s' % tname, 'SELECT * FROM (SELECT * FROM #%s)' % tname):
+            ctx.count('ledger-wildcard')
+            ctx.evaluations += 1
+            try:
+                cur = conn.execute(q)
+                names = [c.name for c in cur.description]
+                rows = cur.fetchall()
+            except Exception as exc:  # noqa: BLE001
+                ctx.record_violation('wildcard-raises-%s' % type(exc).__name__, '%s: %r' % (q, exc), payload={'query': q})
+                continue
+            want = list(t.get('wildcard') or [c['name'] for c in t['columns']])
+            if names != want:
+                ctx.record_violation('wildcard-columns', '%s describes %r, the table declares %r for *' % (q, names, want), payload={'query': q})
+            if any(len(r) != len(names) for r in rows):
+                ctx.record_violation('wildcard-row-width', '%s: rows are not as wide as the description' % q, payload={'query': q})
+
+
 def run(ctx):
+    corpus_layer(ctx)
+    ledger_wildcard_layer(ctx)
     rng = ctx.rng
     table = None
     n = 0
